@@ -31,6 +31,7 @@ func readMessage(in transport.Transport) (pt int, n int, msg []byte, err error) 
 
 	for {
 		size, pkt, err := in.ReadPacket()
+		verifHook("tr.read", nil, in, size, err)
 		if err != nil {
 			return 0, 0, []byte{0, 0}, err
 		}
@@ -93,6 +94,7 @@ func readHeader(data []byte) (packetType uint16, size uint32, packet []byte, err
 
 // forwards data from a Connection to Transport and wraps it in the rdpgw protocol
 func forward(in net.Conn, tunnel *Tunnel) {
+	defer verifHook("relay.exit", tunnel)
 	defer in.Close()
 
 	b1 := new(bytes.Buffer)
@@ -100,6 +102,7 @@ func forward(in net.Conn, tunnel *Tunnel) {
 
 	for {
 		n, err := in.Read(buf)
+		verifHook("relay.read", tunnel, n, err)
 		if err != nil {
 			log.Printf("Error reading from local conn %s", err)
 			break
@@ -121,6 +124,7 @@ func receive(data []byte, out net.Conn) {
 	binary.Read(buf, binary.LittleEndian, &pkt)
 
 	out.Write(pkt)
+	verifHook("relay.c2b", nil, out, len(pkt))
 }
 
 // wrapSyscallError takes an error and a syscall name. If the error is
